@@ -206,6 +206,9 @@ fn isi_configs() -> Vec<(&'static str, Vec<Set>)> {
         ("iname+admin", vec![Set::IName(1), Set::Admin(1)]),
         ("reqi255", vec![Set::Reqi(255)]),
         ("all-flags", vec![Set::Flags(1), Set::Flag(0, false)]),
+        // the builder was a relay builder before it became a direct one
+        ("was-relay", vec![Set::Relay]),
+        ("was-relay+flags", vec![Set::Flag(3, true), Set::Relay, Set::Flag(0, true)]),
     ]
 }
 
@@ -214,11 +217,13 @@ fn free_udp_addr() -> SocketAddr {
     s.local_addr().unwrap()
 }
 
-fn connect_case(transport: u8, compressed: bool, tokio_impl: bool, sets: &[Set]) -> Result<(Vec<Vec<u8>>, Vec<u8>), String> {
+fn connect_case(transport: u8, compressed: bool, tokio_impl: bool, sets: &[Set], mode_first: bool) -> Result<(Vec<Vec<u8>>, Vec<u8>), String> {
     // returns (what the peer received: tcp = [all bytes until EOF], udp = datagrams; expected frame)
     let mut b = Builder::default();
+    // the size mode is chosen before or after the other options: the last choice stands either way
+    if mode_first { b = if compressed { b.compressed() } else { b.uncompressed() }; }
     for s in sets { b = apply(b, s); }
-    b = if compressed { b.compressed() } else { b.uncompressed() };
+    if !mode_first { b = if compressed { b.compressed() } else { b.uncompressed() }; }
     b = b.connect_timeout(Duration::from_secs(2));
     let codec = Codec::new(mode_of(compressed));
     match transport {
@@ -331,12 +336,13 @@ pub fn run(tier: Tier, replay: Option<String>) -> i32 {
         for compressed in [true, false] {
             for tokio_impl in [false, true] {
                 for (cname, sets) in isi_configs() {
+                  for mode_first in [false, true] {
                     connects += 1;
                     acc.eval();
                     let tname = ["tcp", "udp-without-local-address", "udp-with-local-address"][transport as usize];
-                    let label = format!("{tname} {} {} isi={cname}", if compressed { "compressed" } else { "uncompressed" }, if tokio_impl { "connect_async" } else { "connect_blocking" });
+                    let label = format!("{tname} {} {} isi={cname} mode chosen {}", if compressed { "compressed" } else { "uncompressed" }, if tokio_impl { "connect_async" } else { "connect_blocking" }, if mode_first { "first" } else { "last" });
                     let replay = json!({"site": "connect", "case": label});
-                    match guard(|| connect_case(transport, compressed, tokio_impl, &sets)) {
+                    match guard(|| connect_case(transport, compressed, tokio_impl, &sets, mode_first)) {
                         Err(p) => acc.violate(0, format!("C18|connect|{tname}|{}|panic", if tokio_impl { "tokio" } else { "blocking" }), format!("{label}: panicked: {p}"), replay),
                         Ok(Err(e)) => acc.violate(0, format!("C18|connect|{tname}|{}|failed", if tokio_impl { "tokio" } else { "blocking" }), format!("{label}: {e}"), replay),
                         Ok(Ok((got, want))) => {
@@ -344,6 +350,7 @@ pub fn run(tier: Tier, replay: Option<String>) -> i32 {
                             else { acc.violate(0, format!("C18|connect|{tname}|{}|peer-received-other-bytes", if tokio_impl { "tokio" } else { "blocking" }), format!("{label}: peer received {:?} where the handshake is exactly {}", got.iter().map(|g| hex(g)).collect::<Vec<_>>(), hex(&want)), replay); }
                         },
                     }
+                  }
                 }
             }
         }
@@ -396,7 +403,7 @@ pub fn run(tier: Tier, replay: Option<String>) -> i32 {
     let _ = extra.insert("connect_cases".into(), json!(connects));
     crate::report::finish(crate::report::Outcome {
         property: "C18".into(), tier, level: "model_checking", acc,
-        rule: format!("all builder states reachable with a {}-setter alphabet ({} flag helpers on/off, wholesale flags x3, prefix x2, interval x3, iname x2, admin x2, reqi x3, tcp, udp without/with local address, compressed, uncompressed, relay); every transition replays the setter history on a fresh Builder and compares isi() with a reference builder; plus 72 connects (tcp / udp without / with local address x mode x blocking/tokio x 6 ISI configurations) against loopback peers; plus names and passwords of every length 0..=40 and with multi-byte characters / carets at every offset 0..=20", alpha.len(), if tier == Tier::Thorough { 10 } else { 5 }),
+        rule: format!("all builder states reachable with a {}-setter alphabet ({} flag helpers on/off, wholesale flags x3, prefix x2, interval x3, iname x2, admin x2, reqi x3, tcp, udp without/with local address, compressed, uncompressed, relay); every transition replays the setter history on a fresh Builder and compares isi() with a reference builder; plus 192 connects (tcp / udp without / with local address x mode x blocking/tokio x 8 ISI configurations incl. a builder that was a relay builder before x size mode chosen first / last) against loopback peers; plus names and passwords of every length 0..=40 and with multi-byte characters / carets at every offset 0..=20", alpha.len(), if tier == Tier::Thorough { 10 } else { 5 }),
         exhaustive: true, extra,
         assumptions: vec!["state key = Debug rendering of the real Builder + the reference ISI".into(), "UDP without a local address is expected to announce UDPPort 0 (LFS then replies to the source port)".into()],
         started,
